@@ -217,6 +217,47 @@ func (c *ctx) replay(path string) {
 	if json.Unmarshal(b, &wrap) == nil && len(wrap.Replay) > 0 {
 		raw = wrap.Replay
 	}
+	// what kind of replay is it: a range claim, an RPC request (the whole chain is re-run), or one
+	// proof verification
+	var probe struct {
+		Section string `json:"section"`
+		Kind    string `json:"kind"`
+		First   string `json:"first_bits"`
+		Request *struct {
+			Chain rpcChain `json:"chain"`
+		} `json:"request"`
+	}
+	_ = json.Unmarshal(raw, &probe)
+	switch {
+	case probe.Section == "rpc" && probe.Request != nil:
+		ch := make(chan batch, 64)
+		var wg sync.WaitGroup
+		wg.Add(1)
+		go c.runBatches(ch, &wg)
+		c.res.Note("replay: re-running the RPC chain %+v", probe.Request.Chain)
+		c.runRPCChain(probe.Request.Chain, ch)
+		close(ch)
+		wg.Wait()
+		return
+	case probe.First != "" && probe.Kind != "":
+		var cl RangeClaim
+		if err := json.Unmarshal(raw, &cl); err != nil {
+			c.res.Note("replay: %v", err)
+			return
+		}
+		var pending batch
+		c.evalRange(&cl, &pending, c.probeRangeCfg(), "replay")
+		ch := make(chan batch, 1)
+		var wg sync.WaitGroup
+		wg.Add(1)
+		go c.runBatches(ch, &wg)
+		if len(pending.checks) > 0 {
+			ch <- pending
+		}
+		close(ch)
+		wg.Wait()
+		return
+	}
 	var vr verifyReplay
 	if err := json.Unmarshal(raw, &vr); err != nil {
 		c.res.Note("replay: %v", err)
